@@ -132,6 +132,34 @@ def run(prog, rep, tier):
             rep.violation(R103, "%s|%s" % (b.path, vname), "EvtxReader::analyze: an InRange record does not reach the index")
         if vname != "InRange" and reach_ins:
             rep.violation(R103, "%s|%s" % (b.path, vname), "EvtxReader::analyze: a record judged %s reaches the index" % vname)
+    # ways round the loop that do not reach the index: only a record that could not be decoded (the Err arm of
+    # the iterator's item) or one the window rejected.  Any other `continue` - a de-duplication by record
+    # id, a size or level filter - makes a record of the file disappear ("each record is printed exactly once").
+    ok_arm = err_arm = None
+    for bb in sorted(L):
+        if b.term(bb)[0] != "switch":
+            continue
+        try:
+            sd_ = decide.switch_decisions(b, bb)
+        except CheckerError:
+            sd_ = None
+        for tgt_, d_ in (sd_ or []):
+            if d_[0] == "variant" and d_[1][0] == "call" and d_[1][1] == "next" and "as Some" in d_[1]:
+                if d_[2] == 0:
+                    ok_arm = tgt_
+                elif d_[2] == 1:
+                    err_arm = tgt_
+    if ok_arm is None:
+        raise CheckerError("EvtxReader::analyze: the Ok arm of the record iterator's item not found")
+    gates = set(tgt_ for v_, tgt_ in arms.items() if names[v_] != "InRange")
+    if err_arm is not None:
+        gates.add(err_arm)
+    sneaks = h in b.reachable(ok_arm, gates | {ic.bb}) and ok_arm != h
+    rep.examined(R103, b.path + "|every-decoded-record-judged", sample={"ok_arm_block": ok_arm, "legitimate_skips": sorted(gates), "another_way_round_the_loop": bool(sneaks)})
+    if sneaks:
+        # name the first block of such a path that branches away
+        rep.violation(R103, b.path + "|skip-without-verdict", "EvtxReader::analyze: a decoded record can go round the record loop without reaching the index and without having been rejected by the window (a `continue` on some other condition); "
+                      "such a record of the file is never printed")
     # exits of the record loop: only iterator exhaustion (next() == None) may leave the loop
     exits = [(x, s) for x in sorted(L) for s in b.succ[x] if s not in L and b.term(s)[0] != "unreachable"]
     bad = []
